@@ -16,6 +16,7 @@ import (
 	"sync"
 	"syscall"
 	"time"
+	"unsafe"
 
 	"github.com/reeflective/readline"
 	"github.com/reeflective/readline/inputrc"
@@ -87,6 +88,9 @@ type Case struct {
 	Screen    bool         `json:"screen"`
 	Wrap      string       `json:"wrap"` // "" = all commands, "none", "probe"
 	Editor    string       `json:"editor"`
+	Vmin      int          `json:"vmin"`  // when Termios is set: VMIN / VTIME of the terminal before the call
+	Vtime     int          `json:"vtime"`
+	Termios   bool         `json:"termios"` // start from a non-default terminal state (VMIN, VTIME, IXON and ECHOE flipped)
 	Hold      bool         `json:"hold"`    // the terminal holds its answers to cursor queries from the start of every session
 	HistSnap  bool         `json:"histsnap"` // log the contents of the bound sources in every begin/end event
 	Local     string       `json:"local"`   // local keymap set by the probe command "probe-setlocal"
@@ -306,6 +310,14 @@ func runCase(cs *Case, ci int, pty *ptyPair, em *emu, home string) (alive bool) 
 	em.reset(cs.W, cs.H)
 	em.logTok = cs.Screen
 	em.keepRaw = cs.RawOut
+	if cs.Termios {
+		t := pty.termios()
+		t.Cc[syscall.VMIN] = uint8(cs.Vmin)
+		t.Cc[syscall.VTIME] = uint8(cs.Vtime)
+		t.Iflag ^= syscall.IXON
+		t.Lflag ^= syscall.ECHOE
+		ioctl(0, syscall.TCSETS, uintptr(unsafe.Pointer(&t)))
+	}
 	t0 := pty.termios()
 
 	var g *gate
@@ -805,7 +817,7 @@ func runCase(cs *Case, ci int, pty *ptyPair, em *emu, home string) (alive bool) 
 			}
 			logj(map[string]any{"ev": "released", "c": cs.ID, "s": si, "eofreads": g.eofReads()})
 		}
-		pty.restore()
+		ioctl(0, syscall.TCSETS, uintptr(unsafe.Pointer(&t0)))
 	}
 	return alive
 }
